@@ -215,11 +215,23 @@ func (fx *FX) sv(st *State, name string, srt Sort) string {
 
 // entryFacts: well-formedness of the entry heap: everything stored in it was allocated before entry.
 func (fx *FX) entryFacts(name string, srt Sort, c string) {
+	fx.heapAllocFacts(srt, c, fx.nowEntry, "true")
+}
+
+// heapAllocFacts: everything stored in a heap array (at allocated objects) was itself allocated before `now`.
+func (fx *FX) heapAllocFacts(srt Sort, c string, n0 string, guard string) {
 	k, v, ok := splitArr(srt)
 	if !ok || k != SRef {
 		return
 	}
-	n0 := fx.nowEntry
+	before := len(fx.ctx.asserts)
+	defer func() {
+		if guard != "true" {
+			for i := before; i < len(fx.ctx.asserts); i++ {
+				fx.ctx.asserts[i] = Imp(guard, fx.ctx.asserts[i])
+			}
+		}
+	}()
 	switch v {
 	case SRef:
 		fx.ctx.Assert(fmt.Sprintf("(forall ((o Ref)) (! (=> (< (epoch o) %s) (< (epoch (select %s o)) %s)) :pattern ((select %s o))))", n0, c, n0, c))
